@@ -3,6 +3,11 @@
   `C07Parts`: type / size / length facts of every constructor; `C07More`: byte-exact images and accessor read-back for all
   argument values; `Layout`: the source-derived ID and layout facts.
 -/
+import Mb2.Props.FnsTblMbi
+import Mb2.Props.FnsTblHdr
+import Mb2.Props.FnsTblTags
+import Mb2.Props.FnsTblElf
+import Mb2.Props.FnsTblEfi
 import Mb2.Props.FnsGetters
 import Mb2.Props.FnsBoxedCtor
 import Mb2.Props.FnsCast
